@@ -53,7 +53,7 @@ STRESS_SCENARIOS = {
     "C10": (["late", "blocking", "lazyfut", "stale"], 0, ["late", "blocking", "lazyfut", "stale"], 0),
     "C11": (["ids", "refs", "selfchain", "afterend", "queuedask"], 0, ["ids", "refs", "selfchain", "afterend", "queuedask"], 0),
     "C12": (["ids", "hookpanic", "askjoin", "queuedask", "backlog", "afterend"], 0, ["ids", "hookpanic", "askjoin", "queuedask", "backlog", "afterend"], 0),
-    "C13": (["blocking", "replyclose", "mix", "stale"], 4, ["blocking", "replyclose", "mix", "stale"], 60),
+    "C13": (["blocking", "replyclose", "mix", "stale", "dlrace"], 4, ["blocking", "replyclose", "mix", "stale", "dlrace"], 60),
     "C16": (["lazyfut", "blocking", "erasedblk", "refs", "hookpanic"], 0, ["lazyfut", "blocking", "erasedblk", "refs", "hookpanic"], 0),
     "C17": (["blocking", "late", "erasedblk"], 0, ["blocking", "late", "erasedblk", "hammer"], 60),
     "C19": (["blocking", "askjoin", "hookpanic"], 0, ["blocking", "askjoin", "hookpanic"], 0),
